@@ -130,12 +130,9 @@ impl HeapObject {
     }
     #[allow(dead_code)]
     pub fn evaluate_as_string(&self, heap: &Heap) -> Result<String> {
-        self.evaluate_as_string_within(heap, &mut Vec::new())
-    }
-    fn evaluate_as_string_within(&self, heap: &Heap, path: &mut Vec<HeapIndex>) -> Result<String> {
         match self {
-            HeapObject::Array(array) => array.evaluate_as_string_within(heap, path),
-            HeapObject::Object(object) => object.evaluate_as_string_within(heap, path),
+            HeapObject::Array(array) => array.evaluate_as_string(heap),
+            HeapObject::Object(object) => object.evaluate_as_string(heap),
         }
     }
     pub fn size(&self) -> usize {
@@ -205,13 +202,7 @@ impl ArrayInstance {
     }
     #[allow(dead_code)]
     pub fn evaluate_as_string(&self, heap: &Heap) -> Result<String> {
-        self.evaluate_as_string_within(heap, &mut Vec::new())
-    }
-    fn evaluate_as_string_within(&self, heap: &Heap, path: &mut Vec<HeapIndex>) -> Result<String> {
-        let elements = self.0.iter()
-            .map(|element| element.evaluate_as_string_within(heap, path))
-            .collect::<Result<Vec<String>>>()?;
-        Ok(format!("[{}]", elements.join(", ")))
+        render(Rendered::Elements(self), heap)
     }
 }
 
@@ -256,31 +247,7 @@ impl ObjectInstance {
     }
     #[allow(dead_code)]
     pub fn evaluate_as_string(&self, heap: &Heap) -> Result<String> {
-        self.evaluate_as_string_within(heap, &mut Vec::new())
-    }
-    fn evaluate_as_string_within(&self, heap: &Heap, path: &mut Vec<HeapIndex>) -> Result<String> {
-        let parent = match self.parent {
-            Pointer::Null => None,
-            parent => Some(parent.evaluate_as_string_within(heap, path)?),
-        };
-
-        // Sort fields in lexographical order
-        let mut sorted_fields: Vec<(&String, &Pointer)> = self.fields.iter().collect();
-        sorted_fields.sort_by_key(|(name, _)| *name);
-
-        let fields = sorted_fields.into_iter()
-            .map(|(name, value)| {
-                value.evaluate_as_string_within(heap, path).map(|value| format!("{}={}", name, value))
-            })
-            .collect::<Result<Vec<String>>>()?;
-
-        match parent {
-            Some(parent) if fields.len() > 0 =>
-                Ok(format!("object(..={}, {})", parent, fields.join(", "))),
-            Some(parent)  =>
-                Ok(format!("object(..={})", parent)),
-            None => Ok(format!("object({})", fields.join(", "))),
-        }
+        render(Rendered::Members(self), heap)
     }
 }
 
@@ -453,26 +420,78 @@ impl Pointer {
     }
 
     pub fn evaluate_as_string(&self, heap: &Heap) -> Result<String> { // TODO trait candidate
-        self.evaluate_as_string_within(heap, &mut Vec::new())
+        render(Rendered::Value(self), heap)
     }
+}
 
-    // `path` holds the heap objects whose rendering is in progress: meeting one of them again
-    // means the value contains itself and has no finite rendering.
-    fn evaluate_as_string_within(&self, heap: &Heap, path: &mut Vec<HeapIndex>) -> Result<String> {
-        match self {
-            Pointer::Null => Ok("null".to_owned()),
-            Pointer::Integer(i) => Ok(i.to_string()),
-            Pointer::Boolean(b) => Ok(b.to_string()),
-            Pointer::Reference(index) => {
-                bail_if!(path.contains(index),
+/// What remains to be written while a value is being rendered.
+enum Rendered<'a> {
+    Text(&'static str),
+    FieldName(&'a str),
+    Value(&'a Pointer),
+    Elements(&'a ArrayInstance),
+    Members(&'a ObjectInstance),
+    Finished(HeapIndex),
+}
+
+// Renders a value the way `print` shows it. Values can be nested arbitrarily deep, so the pieces
+// still to be written are kept on a work list instead of the native stack. `in_progress` holds the
+// heap objects whose rendering has started but not finished: meeting one of them again means the
+// value contains itself and has no finite rendering.
+fn render<'a>(first: Rendered<'a>, heap: &'a Heap) -> Result<String> {
+    let mut output = String::new();
+    let mut in_progress: std::collections::HashSet<HeapIndex> = std::collections::HashSet::new();
+    let mut pending = vec![first];
+
+    while let Some(piece) = pending.pop() {
+        match piece {
+            Rendered::Text(text) => output.push_str(text),
+            Rendered::FieldName(name) => { output.push_str(name); output.push('='); }
+            Rendered::Finished(index) => { in_progress.remove(&index); }
+            Rendered::Value(Pointer::Null) => output.push_str("null"),
+            Rendered::Value(Pointer::Integer(i)) => output.push_str(&i.to_string()),
+            Rendered::Value(Pointer::Boolean(b)) => output.push_str(&b.to_string()),
+            Rendered::Value(Pointer::Reference(index)) => {
+                bail_if!(!in_progress.insert(*index),
                          "Cannot print a value that contains itself (heap object {})", index);
-                path.push(*index);
-                let result = heap.dereference(index)?.evaluate_as_string_within(heap, path);
-                path.pop();
-                result
+                pending.push(Rendered::Finished(*index));
+                match heap.dereference(index)? {
+                    HeapObject::Array(array) => pending.push(Rendered::Elements(array)),
+                    HeapObject::Object(object) => pending.push(Rendered::Members(object)),
+                }
+            }
+            // The pieces go onto the work list last to first, so that they come off it in order.
+            Rendered::Elements(array) => {
+                output.push('[');
+                pending.push(Rendered::Text("]"));
+                for (position, element) in array.0.iter().enumerate().rev() {
+                    pending.push(Rendered::Value(element));
+                    if position > 0 { pending.push(Rendered::Text(", ")); }
+                }
+            }
+            Rendered::Members(object) => {
+                // Sort fields in lexographical order
+                let mut sorted_fields: Vec<(&String, &Pointer)> = object.fields.iter().collect();
+                sorted_fields.sort_by_key(|(name, _)| *name);
+
+                let has_parent = !object.parent.is_null();
+
+                output.push_str("object(");
+                pending.push(Rendered::Text(")"));
+                for (position, (name, value)) in sorted_fields.into_iter().enumerate().rev() {
+                    pending.push(Rendered::Value(value));
+                    pending.push(Rendered::FieldName(name));
+                    if position > 0 || has_parent { pending.push(Rendered::Text(", ")); }
+                }
+                if has_parent {
+                    pending.push(Rendered::Value(&object.parent));
+                    pending.push(Rendered::Text("..="));
+                }
             }
         }
     }
+
+    Ok(output)
 }
 
 impl Into<bool> for Pointer {
